@@ -159,10 +159,30 @@ def cases_C15(rng, tier):
             out.append(case("dec", "Value", e, fam="value", expect="ok " + pyspec.show(I(n))))
         if in64:
             out.append(case("enc", "Label", enc(I(n)), fam="label-encode", expect="ok " + enc(I(n)).hex()))
+    # uninterpreted positions in COMBINATION with what surrounds them: the value of an extra parameter is kept
+    # whatever its magnitude, for every key type / algorithm / neighbouring label (a type-specific check on a
+    # "known" extra label, e.g. the curve of an EC2 key, must not narrow it)
+    huge = [2**63, 2**64 - 1, -2**63 - 1, -2**64, 2**63 - 1, -2**63]
+    for kty in (1, 2, 3, 4, 5, 6, T("custom")):
+        for lab in (-1, -2, -3, -4, -5, -6, 6, 1000, T("x")):
+            for n in huge:
+                kv = (I(lab) if isinstance(lab, int) else lab, I(n))
+                b = enc(M((I(1), I(kty) if isinstance(kty, int) else kty), kv))
+                out.append(case("dec", "CoseKey", b, fam="extra-value-by-kty", expect_re=r"ok .*" + re.escape(pyspec.show(I(n))) + r".*"))
+                out.append(case("rt", "CoseKey", b, fam="extra-value-by-kty-rt", expect="ok %s T T" % b.hex()))
+    for alg in (-7, -8, 1, 3, 5, -65537, T("custom")):
+        for lab in (8, 9, 10, 33, 34, 256, -1, T("x")):
+            for n in huge[:4]:
+                b = enc(M((I(1), I(alg) if isinstance(alg, int) else alg), (I(lab) if isinstance(lab, int) else lab, I(n))))
+                out.append(case("dec", "Header", b, fam="extra-value-by-alg", expect_re=r"ok .*" + re.escape(pyspec.show(I(n))) + r".*"))
+    for name in (8, 9, 38, 39, 40, -260, -65537, T("x")):
+        for n in huge[:4]:
+            b = enc(M((I(1), T("iss")), (I(name) if isinstance(name, int) else name, I(n))))
+            out.append(case("dec", "ClaimsSet", b, fam="extra-claim-value", expect_re=r"ok .*" + re.escape(pyspec.show(I(n))) + r".*"))
     if tier == "quick":
         # keep the boundary lattice in full, sample the rest
-        keep = [c for c in out if c["fam"] in ("label", "nonce", "key-data-length", "label-encode")]
-        rest = [c for c in out if c["fam"] not in ("label", "nonce", "key-data-length", "label-encode")]
+        keep = [c for c in out if c["fam"] in ("label", "nonce", "key-data-length", "label-encode") or c["fam"].startswith("extra-")]
+        rest = [c for c in out if c["fam"] not in ("label", "nonce", "key-data-length", "label-encode") and not c["fam"].startswith("extra-")]
         out = keep + rng.sample(rest, min(len(rest), 6000))
     return out
 
@@ -182,6 +202,12 @@ def cases_C14(rng, tier):
                     tagged = head(6, t, w) + body
                     out.append(case("dectag", ty, tagged, fam="tag-matrix", tag=t, body=body, mine=MSG_TAG[ty]))
                     out.append(case("dec", ty, tagged, fam="untagged-decoder-on-tagged", expect_re=r"err:\w+"))
+            # tag numbers that become the registered one when truncated / sign-converted / masked
+            mine = MSG_TAG[ty]
+            for t in sorted(set([mine + 2**8, mine + 2**16, mine + 2**32, mine + 2**33, mine + 2**63, (2**64 - 2**32) + mine,
+                                 (2**64 - 2**16) + mine, 2**64 - mine, 2**32 - mine, mine * 256, mine << 32])):
+                if 0 <= t < 2**64 and t != mine:
+                    out.append(case("dectag", ty, head(6, t) + body, fam="tag-alias", expect_re=r"err:\w+"))
             out.append(case("dec", ty, body, fam="untagged", body=body))
             out.append(case("dectag", ty, body, fam="untagged-to-tagged-decoder"))
             out.append(case("dectag", ty, head(6, MSG_TAG[ty]) + head(6, MSG_TAG[ty]) + body, fam="double-tag", expect_re=r"err:\w+"))
@@ -316,7 +342,11 @@ def single_field_headers():
     return [d_header(alg=d_reg(1, -7)), d_header(crit=[d_reg(1, 4)]), d_header(ctype=d_reg(1, 50)), d_header(kid=b"k"),
             d_header(iv=b"i"), d_header(piv=b"p"), d_header(csigs=[d_signature(d_protected(None, D_EMPTY_HEADER), D_EMPTY_HEADER, b"s")]),
             d_header(rest=[(I(99), I(1))]), d_header(rest=[(T("x"), NULL)]),
-            d_header(csigs=[d_signature(d_protected(None, D_EMPTY_HEADER), D_EMPTY_HEADER, b"s"), d_signature(d_protected(None, d_header(kid=b"q")), D_EMPTY_HEADER, b"t")])]
+            d_header(csigs=[d_signature(d_protected(None, D_EMPTY_HEADER), D_EMPTY_HEADER, b"s"), d_signature(d_protected(None, d_header(kid=b"q")), D_EMPTY_HEADER, b"t")]),
+            d_header(csigs=[d_signature(d_protected(None, D_EMPTY_HEADER), D_EMPTY_HEADER, bytes([i])) for i in (1, 2, 3)]),
+            d_header(csigs=[d_signature(d_protected(None, D_EMPTY_HEADER), d_header(kid=bytes([i])), bytes([i])) for i in (4, 3, 2, 1)]),
+            d_header(crit=[d_reg(1, 4), d_reg(1, 1), d_reg(2, "z"), d_reg(1, 2)]),
+            d_header(rest=[(I(300), I(1)), (I(-1), I(2)), (T("b"), I(3)), (I(9), I(4)), (T("a"), I(5))])]
 
 def single_field_prots():
     """(description, exact bytes) of built protected headers with one populated field, plus the empty one"""
@@ -541,6 +571,24 @@ def cases_C07(rng, tier):
         inputs.append(("CoseKey", enc(M((I(1), I(2)), (I(4), ('a', [I(x) for x in rng.sample(KOP_REG, 3)]))))))   # key_ops order
         inputs.append(("Header", enc(M((I(rng.choice([0, 9, -70000])), I(rng.choice(LATTICE)))), rng)))
         inputs.append(("Value", enc(gen_value(rng, 4), rng)))
+    # ill-formed inputs (one or two rule violations, as in C08/C10/C18): whatever IS accepted must survive the round
+    # trip, so an input that should have been rejected but is not shows up here as well
+    for _ in range(Q(tier, 250, 3000)):
+        k = rng.random()
+        if k < 0.5:
+            hb = enc(('m', gen_header_entries(rng, 1, rng.choice([1, 1, 2]))), rng if rng.random() < 0.5 else None)
+            inputs.append(("Header", hb))
+            inputs.append(rng.choice([("CoseSign1", enc(A(B(b""), ("raw", hb), NULL, B(b"")))), ("CoseMac0", enc(A(B(hb), M(), NULL, B(b"")))),
+                                      ("CoseRecipient", enc(A(B(b""), ("raw", hb), NULL))), ("ProtectedHeader", hb)]))
+        elif k < 0.75:
+            inputs.append(("CoseKey", enc(('m', gen_key_entries(rng, rng.choice([1, 2]))), rng if rng.random() < 0.5 else None)))
+        else:
+            inputs.append(("ClaimsSet", enc(('m', gen_claims_entries(rng, rng.choice([1, 2]))), rng if rng.random() < 0.5 else None)))
+    for a, b in (((5, B(b"\x01\x02")), (6, B(b"\x03"))), ((6, B(b"\x03")), (5, B(b"\x01\x02")))):
+        for extra in ([], [(I(4), B(b"k"))], [(I(1), I(-7)), (T("x"), I(1))]):
+            for posn in range(len(extra) + 1):
+                hb = enc(('m', [(I(a[0]), a[1])] + extra[:posn] + [(I(b[0]), b[1])] + extra[posn:]))
+                inputs += [("Header", hb), ("CoseEncrypt0", enc(A(B(b""), ("raw", hb), NULL))), ("CoseSign", enc(A(B(b""), M(), NULL, A(A(B(b""), ("raw", hb), B(b""))))))]
     for ty, b in inputs:
         out.append(case("dec", ty, b, fam="dec", key=(ty, b)))
         out.append(case("rt", ty, b, fam="rt", key=(ty, b)))
@@ -1296,6 +1344,26 @@ def cases_C02(rng, tier):
                             expect="ok 6374 " + pyspec.enc_structure("CoseEncrypt0", p, aad).hex()))
             out.append(case("helperhex", "sign.verify_signature", enc(A(B(inner_p), M(), B(b"pl"), A(A(B(p), M(), B(b"s1"))))), b"\x00", aad,
                             fam="signer-uses-wire-bytes", expect="ok 7331 " + pyspec.sig_structure("CoseSignature", inner_p, p, aad, b"pl").hex()))
+            # the remaining entry points: detached variants, tbs_* of COSE_Sign, COSE_Mac, COSE_Encrypt, recipients
+            dpl = b"detached"
+            out.append(case("helperhex", "sign1.tbs_detached_data", enc(A(B(p), M(), NULL, B(b"sg"))), dpl, aad, fam="detached-uses-wire-bytes",
+                            expect="ok " + pyspec.sig_structure("CoseSign1", p, None, aad, dpl).hex()))
+            out.append(case("helperhex", "sign1.verify_detached_signature", enc(A(B(p), M(), NULL, B(b"sg"))), dpl, aad, fam="detached-uses-wire-bytes",
+                            expect="ok 7367 " + pyspec.sig_structure("CoseSign1", p, None, aad, dpl).hex()))
+            sgn = enc(A(B(inner_p), M(), NULL, A(A(B(b""), M(), B(b"s0")), A(B(p), M(), B(b"s1")))))
+            want = pyspec.sig_structure("CoseSignature", inner_p, p, aad, dpl).hex()
+            out.append(case("helperhex", "sign.tbs_detached_data", sgn, dpl, aad, b"\x01", fam="detached-uses-wire-bytes", expect="ok " + want))
+            out.append(case("helperhex", "sign.verify_detached_signature", sgn, b"\x01", dpl, aad, fam="detached-uses-wire-bytes", expect="ok 7331 " + want))
+            sgn2 = enc(A(B(inner_p), M(), B(b"pl"), A(A(B(b""), M(), B(b"s0")), A(B(p), M(), B(b"s1")))))
+            out.append(case("helperhex", "sign.tbs_data", sgn2, aad, b"\x01", fam="signer-uses-wire-bytes",
+                            expect="ok " + pyspec.sig_structure("CoseSignature", inner_p, p, aad, b"pl").hex()))
+            out.append(case("helperhex", "mac.verify_tag", enc(A(B(p), M(), B(b"pl"), B(b"tg"), A(A(B(inner_p), M(), NULL)))), aad, fam="tbm-uses-wire-bytes",
+                            expect="ok 7467 " + pyspec.mac_structure("CoseMac", p, aad, b"pl").hex()))
+            out.append(case("helperhex", "encrypt.decrypt", enc(A(B(p), M(), B(b"ct"), A(A(B(inner_p), M(), NULL)))), aad, fam="aad-uses-wire-bytes",
+                            expect="ok 6374 " + pyspec.enc_structure("CoseEncrypt", p, aad).hex()))
+            for rc in ("EncRecipient", "MacRecipient", "RecRecipient"):
+                out.append(case("helperhex", "recipient.decrypt", enc(A(B(p), M(), B(b"ct"))), tstr(rc), aad, fam="aad-uses-wire-bytes",
+                                expect="ok 6374 " + pyspec.enc_structure(rc, p, aad).hex()))
     # every spelling of the EMPTY header (zero-length, wrapped empty map in every width, indefinite) in every
     # carrier and nesting position, decoded, re-encoded and fed to the structure functions
     empties = [b"", b"\xa0", b"\xbf\xff", b"\xb8\x00", b"\xb9\x00\x00", b"\xba\x00\x00\x00\x00", b"\xbb" + b"\x00" * 8]
